@@ -440,7 +440,7 @@ pub fn exec_op(sim: &Sim, op: &Op, in_cb: bool) {
             // update() of a disabled source: whether it reports Ok or an error is not
             // specified, but it is not enable(): the source stays disabled (C07)
             if inserted && !enabled && !indet {
-                if own || matches!(sim.st.borrow().srcs.get(id).map(|s| &s.k), Some(K::Trans(_)) | Some(K::Comp(_))) {
+                if own {
                     return;
                 }
                 let Some(_r) = guarded(sim, "update", || h.update(&tok)) else { return };
@@ -727,8 +727,10 @@ pub fn exec_op(sim: &Sim, op: &Op, in_cb: bool) {
             let (i, m) = (*interest, *mode);
             if guarded(sim, "as_source_mut", || {
                 let mut s = disp.as_source_mut();
-                s.inner.interest = interest_of(i);
-                s.inner.mode = mode_of(m);
+                if let Some(g) = s.inner.g.as_mut() {
+                    g.interest = interest_of(i);
+                    g.mode = mode_of(m);
+                }
             })
             .is_none()
             {
@@ -988,7 +990,7 @@ fn insert_generic_with(
     let sh = WrapShared::new(id);
     let cbd = Rc::new(Cell::new(0));
     let guard = DropCtr(cbd.clone());
-    let source = Generic::new(own.clone(), interest_of(interest), mode_of(mode));
+    let source = Holder { g: Some(Generic::new(own.clone(), interest_of(interest), mode_of(mode))), sh: sh.clone() };
     let disp = Dispatcher::new(Wrap::new(source, sh.clone()), move |ev, _meta, tag: &mut Tag| {
         let _g = &guard;
         cb::on_generic(id, ev, tag)
